@@ -199,6 +199,7 @@ def run(ctx):
 
     # ------------------------------------------------------------------ R07.4
     r = ctx.rule("R07.4", "edits are not lost: write-implies-invalidate (C01 R01.5), removal of an attribute removes every duplicate (C16 R16.2), the element's own end-tag edits are applied before user end-tag handlers run", "E-MIR", floor=3)
+    sm.clause_eq_case_insensitive(r, mir)
     ra = mir.fn("Attributes::remove_attribute")
     bulk = [callee_key(t) for bi, t in ra.calls(r"retain|extract_if")]
     single = [bi for bi, t in ra.calls(r"Vec::remove$|swap_remove$")]
